@@ -32,8 +32,9 @@ type Sys struct {
 	Env *doubles.RecEnv
 	Ch  *channels.Channels
 
-	mu     sync.Mutex
-	Events []Ev
+	mu         sync.Mutex
+	Events     []Ev
+	lastDupErr error
 	// WritesAtEvent[i] = number of datastore writes that had happened when event i was announced
 	WritesAtEvent []int
 }
@@ -171,6 +172,12 @@ var Alphabet = []Op{
 	{Name: "Cancel", Kind: "end", Roles: "ir", Do: func(s *Sys, c datatransfer.ChannelID, _ views.Vec) error { return s.Ch.Cancel(c) }},
 	{Name: "Error", Kind: "end", Roles: "ir", Do: func(s *Sys, c datatransfer.ChannelID, _ views.Vec) error { return s.Ch.Error(c, errBoom) }},
 
+	{Name: "CreateDuplicate", Kind: "book", Roles: "ir", Do: func(s *Sys, c datatransfer.ChannelID, v views.Vec) error {
+		ini := c.Initiator
+		_, err := s.Ch.CreateNew(doubles.PeerA, c.ID, doubles.Cid("other-root"), doubles.AllSelector(), doubles.Voucher("T", "dup"), ini, v.Sender, v.Rcpt)
+		s.lastDupErr = err
+		return err
+	}},
 	{Name: "Opened", Kind: "book", Roles: "ir", Do: func(s *Sys, c datatransfer.ChannelID, _ views.Vec) error { return s.Ch.ChannelOpened(c) }},
 	{Name: "Restart", Kind: "book", Roles: "ir", Do: func(s *Sys, c datatransfer.ChannelID, _ views.Vec) error { return s.Ch.Restart(c) }},
 	{Name: "CompleteCleanupOnRestart", Kind: "book", Roles: "ir", Do: func(s *Sys, c datatransfer.ChannelID, _ views.Vec) error {
